@@ -10,6 +10,7 @@ use xeh::state::verif::VerifDump;
 
 pub mod gen;
 pub mod prog;
+pub mod rev;
 
 // ------------------------------------------------------------------ PRNG (splitmix64)
 #[derive(Clone)]
@@ -287,6 +288,7 @@ pub const DEFAULT_STACK_LIMIT: usize = 10_000;
 pub fn fresh() -> Xstate {
     let mut xs = Xstate::boot().expect("boot");
     xs.intercept_stdout(true);
+    xs.intercept_output(true).unwrap();
     xs.set_insn_limit(Some(DEFAULT_INSN_LIMIT)).unwrap();
     xs.set_stack_limit(Some(DEFAULT_STACK_LIMIT)).unwrap();
     xs
